@@ -10,6 +10,7 @@ sys.path.insert(0, os.path.dirname(os.path.abspath(__file__)))
 
 GENERATORS = [
     ("GenImportant.v", "tr_important"),
+    ("GenSettings.v", "tr_settings"),
     ("GenTermination.v", "tr_termination"),
     ("GenWelford.v", "tr_welford"),
     ("GenRegex.v", "tr_regex"),
